@@ -85,6 +85,12 @@ func symSource(maxb int) []*srcEnt {
 // symPriorDest populates dest for each source path with one of: nothing, an identical entry,
 // a regular file with other metadata, a directory, a symlink; plus optionally a stale entry "zz".
 func symPriorDest(dest string, src []*srcEnt) map[string]string {
+	return symPriorDestGid(dest, src, false, 0)
+}
+
+// symPriorDestGid: as symPriorDest; with rewrite set an "identical" entry carries group gid (what a
+// receiver whose filter rewrites the group left behind).
+func symPriorDestGid(dest string, src []*srcEnt, rewrite bool, gid uint32) map[string]string {
 	state := map[string]string{}
 	dirOK := map[string]bool{"": true}
 	for _, e := range src {
@@ -108,6 +114,10 @@ func symPriorDest(dest string, src []*srcEnt) map[string]string {
 			v.Assume(!isHardlink)
 			state[p] = "same"
 			perm := goModeToUnixPerm(st.Mode)
+			if rewrite {
+				st = st.Clone()
+				st.Gid = gid
+			}
 			switch {
 			case os.FileMode(st.Mode).IsDir():
 				m.MkDir(full, perm, st.Uid, st.Gid, st.ModTime)
